@@ -55,18 +55,25 @@ Definition unchecked_path (b : path) (s : list N) : path :=
   match root_kind s with O => b ++ parse_parts s | _ => parse_parts s end.
 
 (* base_path / Path(relative_path), then
-     if ".." in file_path.relative_to(base_path).parts: raise ValueError
+     relative_parts = file_path.relative_to(base_path).parts
+     if ".." in relative_parts or not relative_parts: raise ValueError     (file methods)
+     if ".." in chunk_path.relative_to(base_path).parts: raise ValueError   (_chunk_path)
    None = ValueError (from relative_to or from the explicit check), raised
-   before any file-system primitive: the outcome [Refused]. *)
-Definition checked_path (b : path) (s : list N) : option path :=
+   before any file-system primitive: the outcome [Refused].
+   [need_name] = true for the file methods (the dataset directory itself is
+   not a file name), false for chunk paths (they always have a last component). *)
+Definition rel_ok (need_name : bool) (rel : path) : bool :=
+  negb (existsb is_dotdot rel) && negb (need_name && match rel with [] => true | _ => false end).
+Definition checked_path_gen (need_name : bool) (b : path) (s : list N) : option path :=
   let parts := parse_parts s in
   match root_kind s with
-  | O => if existsb is_dotdot parts then None else Some (b ++ parts)
+  | O => if rel_ok need_name parts then Some (b ++ parts) else None
   | 1%nat => if is_prefix b parts
-             then (if existsb is_dotdot (skipn (length b) parts) then None else Some parts)
+             then (if rel_ok need_name (skipn (length b) parts) then Some parts else None)
              else None
   | _ => None
   end.
+Definition checked_path (b : path) (s : list N) : option path := checked_path_gen true b s.
 
 Inductive gzres := GzOk (b : list N) | GzBad | GzEOF | GzZlib.
 
@@ -116,8 +123,8 @@ Definition gunzip_out (d : B) : outcome (resval B) :=
   match gunzip d with
   | GzOk b => Ok (VData (plain b))
   | GzBad => AccessErr                  (* gzip.BadGzipFile is an OSError *)
-  | GzEOF => Crash EOFError
-  | GzZlib => Crash ZlibError
+  | GzEOF => AccessErr                  (* except (OSError, EOFError, zlib.error) *)
+  | GzZlib => AccessErr
   end.
 
 (* with f: return f.read() *)
@@ -185,21 +192,33 @@ Definition fa_file_exists (c : cfg) (name : list N) : prog (outcome (resval B)) 
       end)
   end.
 
-Definition chunk_path (c : cfg) (is_flat : bool) (key : list N) (co : coords) : path :=
-  unchecked_path (base c) (if is_flat then chunk_str_flat key co else chunk_str_deep key co).
+(* FileAccessor._chunk_path: None = ValueError *)
+Definition chunk_path (c : cfg) (is_flat : bool) (key : list N) (co : coords) : option path :=
+  checked_path_gen false (base c) (if is_flat then chunk_str_flat key co else chunk_str_deep key co).
 
 Definition fa_store_chunk (c : cfg) (key : list N) (co : coords) (buf mime : list N) (ow : bool) :=
-  store_at c (chunk_path c (flat c) key co) buf mime ow.
+  match chunk_path c (flat c) key co with
+  | None => Ret Refused
+  | Some fp => store_at c fp buf mime ow
+  end.
 
 (* probes flat then deep and keeps probing after a hit: the last match wins;
    a handle opened for an earlier match is simply dropped *)
 Definition fa_fetch_chunk (c : cfg) (key : list N) (co : coords) : prog (outcome (resval B)) :=
-  probe (chunk_path c true key co) None (Ret AccessErr) (fun f1 =>
-  probe (chunk_path c false key co) f1 (Ret AccessErr) (fun f2 =>
+  match chunk_path c true key co with
+  | None => Ret Refused                  (* raised by the first _chunk_path, before any probe *)
+  | Some pf =>
+  probe pf None (Ret AccessErr) (fun f1 =>
+  match chunk_path c false key co with
+  | None => Ret Refused
+  | Some pd =>
+  probe pd f1 (Ret AccessErr) (fun f2 =>
     match f2 with
     | None => Ret AccessErr
     | Some (p, z) => read_handle p z
-    end)).
+    end)
+  end)
+  end.
 
 Definition op_prog (c : cfg) (o : op) : prog (outcome (resval B)) :=
   match o with
@@ -245,7 +264,23 @@ Definition is_absolute (s : list N) : bool :=
 Definition spec_norm (s : list N) : option path :=
   if is_absolute s then None else
   let parts := filter keep_comp (split_slash s) in
-  if existsb is_dotdot parts then None else Some parts.
+  if existsb is_dotdot parts then None else
+  match parts with [] => None | _ => Some parts end.    (* the dataset directory is not a file name *)
+
+(* scale keys: a relative path (possibly several components, possibly none
+   for "."), never empty, never absolute, never mentioning ".." *)
+Definition spec_key (k : list N) : option path :=
+  match k with
+  | [] => None
+  | _ => if is_absolute k then None else
+         let parts := filter keep_comp (split_slash k) in
+         if existsb is_dotdot parts then None else Some parts
+  end.
+Definition spec_chunk_tail (is_flat : bool) (c : coords) : path :=
+  if is_flat then [spec_flat_name c]
+  else [spec_axis (cx0 c) (cx1 c); spec_axis (cy0 c) (cy1 c); spec_axis (cz0 c) (cz1 c)].
+Definition spec_chunk_name (is_flat : bool) (k : list N) (c : coords) : option path :=
+  match spec_key k with Some kp => Some (kp ++ spec_chunk_tail is_flat c) | None => None end.
 
 (* the abstract dataset: name -> bytes *)
 Definition amap := list (path * list N).
@@ -272,7 +307,7 @@ Definition spec_exists (m : amap) (n : path) : outcome aval :=
 Definition op_name (is_flat : bool) (o : op) : option path :=
   match o with
   | OStoreFile n _ _ _ | OFetchFile n | OExists n => spec_norm n
-  | OStoreChunk k c _ _ _ | OFetchChunk k c => Some (spec_chunk_rel is_flat k c)
+  | OStoreChunk k c _ _ _ | OFetchChunk k c => spec_chunk_name is_flat k c
   end.
 
 Definition spec_op (is_flat : bool) (m : amap) (o : op) : outcome aval * amap :=
